@@ -20,8 +20,11 @@ CONSTANTS Clients, Defs, MaxOps, Dev
 \*      "removed_pool_falls_back"  - a client of a removed pool is served by the remaining (control) pool
 \*      "parked_tx_uses_old_pool"  - a transaction held by PAUSE runs, after RESUME, on the pool object it saw when it was held
 
-Files == Defs \cup {"absent", "syntax_error", "semantic_error"}
-Valid(f) == f \in Defs \cup {"absent"}
+\* "unreachable": a well-formed file whose db1 servers cannot be reached while it asks for connections to be opened at
+\* once (min_pool_size): building the pool fails.  What is in effect afterwards is not specified (the definition is then
+\* called "unreachable" here and nothing is expected of transactions) - but the next reload must work as usual.
+Files == Defs \cup {"absent", "syntax_error", "semantic_error", "unreachable"}
+Valid(f) == f \in Defs \cup {"absent", "unreachable"}
 
 VARIABLES file, config, pools, nextObj, reloadPc, staged,
           tx,       \* client -> -1 (no transaction) or the object id its transaction runs on (-2 = the control pool)
